@@ -1152,7 +1152,19 @@ def fold_int_constants(prog: Program) -> int:
             # short one-line string constants too (`CORE_ORIGIN = "pixee"`): `x == CORE_ORIGIN` and `x == "pixee"` are the same test
             elif counts.get(name) == 1 and name.isupper() and isinstance(val, ast.Constant) and isinstance(val.value, str) and len(val.value) <= 40 and "\n" not in val.value:
                 table[f"{mod.name}.{name}"] = val
-    if not table:
+    # upper-case module-level tuples / lists of constants, assigned once: `[*_FIXED_WORDS, "-o", out]` is the list with the words written out
+    seq_table: dict[str, list[ast.expr]] = {}
+    for mod in prog.modules.values():
+        counts2: dict[str, int] = {}
+        for st in mod.tree.body:
+            tg = st.targets if isinstance(st, ast.Assign) else ([st.target] if isinstance(st, (ast.AnnAssign, ast.AugAssign)) else [])
+            for t in tg:
+                if isinstance(t, ast.Name):
+                    counts2[t.id] = counts2.get(t.id, 0) + 1
+        for name, val in mod.constants.items():
+            if counts2.get(name) == 1 and name.lstrip("_").isupper() and isinstance(val, (ast.Tuple, ast.List)) and val.elts and all(isinstance(e, ast.Constant) for e in val.elts):
+                seq_table[f"{mod.name}.{name}"] = list(val.elts)
+    if not table and not seq_table:
         return 0
     n = 0
     for fn in prog.functions.values():
@@ -1161,7 +1173,31 @@ def fold_int_constants(prog: Program) -> int:
         local = _assigned_names(fn.node.body) | set(fn.params())
         mod = fn.module
 
+        def _expand_starred(elts):
+            nonlocal n
+            out = []
+            for e in elts:
+                if isinstance(e, ast.Starred) and isinstance(e.value, (ast.Name, ast.Attribute)):
+                    q = prog.resolve_dotted(mod, e.value.id) if isinstance(e.value, ast.Name) and e.value.id not in local else (prog.resolve_expr_name(mod, e.value) if isinstance(e.value, ast.Attribute) else None)
+                    if q in seq_table:
+                        n += 1
+                        out += [ast.copy_location(ast.Constant(value=c.value), e) for c in seq_table[q]]
+                        continue
+                out.append(e)
+            return out
+
         class T(ast.NodeTransformer):
+            def visit_List(self, x):
+                self.generic_visit(x)
+                x.elts = _expand_starred(x.elts)
+                return x
+
+            def visit_Tuple(self, x):
+                self.generic_visit(x)
+                if isinstance(x.ctx, ast.Load):
+                    x.elts = _expand_starred(x.elts)
+                return x
+
             def visit_Name(self, x):
                 nonlocal n
                 if isinstance(x.ctx, ast.Load) and x.id not in local and x.id.isupper():
